@@ -3,7 +3,9 @@
 From Coq Require Import ZArith List Bool.
 From V Require Import base.Cal gen.ParseTables parse.Lex parse.Prim parse.Ymd parse.Parse parse.Build
                       parse.ParseSpec parse.YearThm parse.RenderIso parse.RenderMon parse.FracFacts
-                      parse.RenderUtc parse.RenderRefuted.
+                      parse.RenderUtc parse.RenderRefuted parse.RenderFrac parse.RenderCommaMon parse.RenderCommaMonth
+                      parse.RenderCompact parse.Render12HM parse.Render12HMS parse.RenderOff parse.RenderCtime
+                      parse.RenderRfc parse.RenderComma12 parse.RenderCommaDefs parse.RenderOffDefs parse.Render12Defs.
 Import ListNotations.
 Open Scope Z_scope.
 
@@ -79,6 +81,97 @@ Theorem C02_parse_render_iso_utc : forall j ofm d o df cy loc n0 n1 yf ig,
   = OutOk (expected_dt (TDT DIso j THMS ofm) d df) (if ig then ZNaive else ZUTC) 0 false [].
 Proof. exact parse_render_iso_utc_lemma. Qed.
 Print Assumptions C02_parse_render_iso_utc.
+
+(* 36 templates: YYYY-MM-DD{T, space}HH:MM:SS{. ,}f with k = 1..9 fraction digits: the microsecond
+   is the rendered fraction truncated to six digits *)
+Theorem C02_parse_render_iso_frac : forall j k comma d o df cy loc n0 n1 yf ig,
+  In j plain_joiners -> (1 <= k <= 9)%nat ->
+  valid_dt d = true -> valid_dt df = true ->
+  parse (opts_df0 yf ig df cy loc n0 n1) (render (TDT DIso j (TFrac k comma) ONone) d o)
+  = OutOk (expected_dt (TDT DIso j (TFrac k comma) ONone) d df) ZNaive 0 false [].
+Proof. intros j k comma. exact (frac_case j k comma). Qed.
+Print Assumptions C02_parse_render_iso_frac.
+
+(* 6 templates: "Mon DD, YYYY" / "Month DD, YYYY", alone or followed by " HH:MM" / " HH:MM:SS";
+   guard 100 <= year (F-C02-padyear) *)
+Theorem C02_parse_render_mon_dd_yyyy : forall jt d o df cy loc n0 n1 yf ig,
+  In jt comma_tails ->
+  valid_dt d = true -> valid_dt df = true -> 100 <= d_y d ->
+  parse (opts_df0 yf ig df cy loc n0 n1) (render (TDT DMonDY (fst jt) (snd jt) ONone) d o)
+  = OutOk (expected_dt (TDT DMonDY (fst jt) (snd jt) ONone) d df) ZNaive 0 false [].
+Proof. exact parse_render_mon_dd_yyyy_lemma. Qed.
+Print Assumptions C02_parse_render_mon_dd_yyyy.
+
+Theorem C02_parse_render_month_dd_yyyy : forall jt d o df cy loc n0 n1 yf ig,
+  In jt comma_tails ->
+  valid_dt d = true -> valid_dt df = true -> 100 <= d_y d ->
+  parse (opts_df0 yf ig df cy loc n0 n1) (render (TDT DMonthDY (fst jt) (snd jt) ONone) d o)
+  = OutOk (expected_dt (TDT DMonthDY (fst jt) (snd jt) ONone) d df) ZNaive 0 false [].
+Proof. exact parse_render_month_dd_yyyy_lemma. Qed.
+Print Assumptions C02_parse_render_month_dd_yyyy.
+
+(* 9 templates: YYYYMMDD, YYYYMMDD{T, space}HHMM[SS], YYYYMMDDHHMM[SS] (12 / 14 digits),
+   YYYYMMDDTHH:MM[:SS] *)
+Theorem C02_parse_render_compact : forall jt d o df cy loc n0 n1 yf ig,
+  In jt compact_tails ->
+  valid_dt d = true -> valid_dt df = true ->
+  parse (opts_df0 yf ig df cy loc n0 n1) (render (TDT DCompact (fst jt) (snd jt) ONone) d o)
+  = OutOk (expected_dt (TDT DCompact (fst jt) (snd jt) ONone) d df) ZNaive 0 false [].
+Proof. exact parse_render_compact_lemma. Qed.
+Print Assumptions C02_parse_render_compact.
+
+(* 4 templates: YYYY-MM-DD hh:MM[:SS][ ]AM|PM -- 12 AM is 00, 12 PM is 12 *)
+Theorem C02_parse_render_12h_hm : forall spaced d o df cy loc n0 n1 yf ig,
+  valid_dt d = true -> valid_dt df = true ->
+  parse (opts_df0 yf ig df cy loc n0 n1) (render (TDT DIso JSpace (T12HM spaced) ONone) d o)
+  = OutOk (expected_dt (TDT DIso JSpace (T12HM spaced) ONone) d df) ZNaive 0 false [].
+Proof. exact parse_render_12h_hm_lemma. Qed.
+Print Assumptions C02_parse_render_12h_hm.
+
+Theorem C02_parse_render_12h_hms : forall spaced d o df cy loc n0 n1 yf ig,
+  valid_dt d = true -> valid_dt df = true ->
+  parse (opts_df0 yf ig df cy loc n0 n1) (render (TDT DIso JSpace (T12HMS spaced) ONone) d o)
+  = OutOk (expected_dt (TDT DIso JSpace (T12HMS spaced) ONone) d df) ZNaive 0 false [].
+Proof. exact parse_render_12h_hms_lemma. Qed.
+Print Assumptions C02_parse_render_12h_hms.
+
+(* 2 templates, the one named in the property text: "Mon DD, YYYY hh:MM AM" / "... hh:MMPM" *)
+Theorem C02_parse_render_mon_dd_yyyy_12h : forall spaced d o df cy loc n0 n1 yf ig,
+  valid_dt d = true -> valid_dt df = true -> 100 <= d_y d ->
+  parse (opts_df0 yf ig df cy loc n0 n1) (render (TDT DMonDY JSpace (T12HM spaced) ONone) d o)
+  = OutOk (expected_dt (TDT DMonDY JSpace (T12HM spaced) ONone) d df) ZNaive 0 false [].
+Proof. exact parse_render_mon_dd_yyyy_12h_lemma. Qed.
+Print Assumptions C02_parse_render_mon_dd_yyyy_12h.
+
+(* 8 templates x sign: YYYY-MM-DD{T, space}{HH:MM, HH:MM:SS}{+HH:MM, -HH:MM, +HH, -HH}, offsets
+   -23:59..+23:59: aware with exactly the rendered offset (UTC when zero); "UTC" not a local name *)
+Theorem C02_parse_render_iso_offset : forall j tf ofm d o df cy loc n0 n1 yf ig,
+  In j plain_joiners -> In tf plain_tforms -> In ofm zone_oforms ->
+  valid_dt d = true -> valid_dt df = true -> wf_off o = true -> smem utc_name loc = false ->
+  parse (opts_df0 yf ig df cy loc n0 n1) (render (TDT DIso j tf ofm) d o)
+  = OutOk (expected_dt (TDT DIso j tf ofm) d df)
+          (if ig then ZNaive else
+           match expected_off (TDT DIso j tf ofm) o with Some v => zone_of_off v | None => ZNaive end)
+          0 false [].
+Proof. exact parse_render_iso_offset_lemma. Qed.
+Print Assumptions C02_parse_render_iso_offset.
+
+(* ctime(): "Www Mon DD HH:MM:SS YYYY", day space-padded; guard 100 <= year *)
+Theorem C02_parse_render_ctime : forall d o df cy loc n0 n1 yf ig,
+  valid_dt d = true -> valid_dt df = true -> 100 <= d_y d ->
+  parse (opts_df0 yf ig df cy loc n0 n1) (render TCtime d o)
+  = OutOk (expected_dt TCtime d df) ZNaive 0 false [].
+Proof. exact parse_render_ctime_lemma. Qed.
+Print Assumptions C02_parse_render_ctime.
+
+(* RFC 2822 with a named UTC zone: "Www, DD Mon YYYY HH:MM:SS GMT" / "... UTC" *)
+Theorem C02_parse_render_rfc_named : forall (gmt : bool) d o df cy loc n0 n1 yf ig,
+  valid_dt d = true -> valid_dt df = true -> 100 <= d_y d ->
+  smem [85; 84; 67] loc = false -> smem [71; 77; 84] loc = false ->
+  parse (opts_df0 yf ig df cy loc n0 n1) (render (TRfc (if gmt then OGMT else OUTC)) d o)
+  = OutOk (expected_dt (TRfc (if gmt then OGMT else OUTC)) d df) (if ig then ZNaive else ZUTC) 0 false [].
+Proof. exact parse_render_rfc_named_lemma. Qed.
+Print Assumptions C02_parse_render_rfc_named.
 
 (* F-C02-padyear: inside the complement of the guard the round trip fails on the faithful model
    ("25 Sep 0099" and "Sat Sep 25 10:36:28 0099" are read as 1999) *)
